@@ -160,6 +160,44 @@ def run(ck):
                 ck.fail("convert:%s" % name, "value read under %s differs from the exact conversion of the value supplied under %s" % (u2, u),
                         {"accessor": name, "u": u, "u2": u2, "x": x}, got, want)
             emit("conv %s %s %s" % (u, u2, frac(x)), frac(got), 1e-12)
+    # ---- (i-b) frequency axes: supplied in one unit, converted to a time axis and back inside another -------------
+    from quantarhei import FrequencyAxis
+    lin = [u for u in eunits if u != "nm"]
+    apairs = [(u, v) for u in lin for v in lin]
+    if ck.quick:
+        rng.shuffle(apairs)
+        apairs = apairs[:24]
+    for (u, u2) in apairs:
+        x = rng.choice([2.0, 12.5, 500.0, 11000.0])
+        atype = rng.choice(["complete", "upper-half"])
+        name = "FrequencyAxis->TimeAxis->FrequencyAxis(%s)" % atype
+        before = m.get_current_units("energy")
+        try:
+            with energy_units(u):
+                w = FrequencyAxis(x, 8, x / 16.0, atype=atype)
+                d1 = numpy.array(w.data).copy()
+            with energy_units("int"):
+                t_ref = w.get_TimeAxis()
+                fs_ref = float(t_ref.frequency_start)
+            with energy_units(u2):
+                t = w.get_TimeAxis()
+                w2 = t.get_FrequencyAxis()
+                d2 = numpy.array(w2.data).copy()
+            fs = float(t.frequency_start)
+        except Exception as e:
+            ck.fail("accessor:raises:%s" % name, "axis conversion raised %r" % (e,), {"accessor": name, "u": u, "u2": u2, "x": x})
+            continue
+        if m.get_current_units("energy") != before:
+            ck.fail("call:%s" % name, "axis conversion changed the active units", {"accessor": name, "u": u, "u2": u2})
+        fu, fv = float(qunits.conversion_facs_energy[u]), float(qunits.conversion_facs_energy[u2])
+        want = d1 * fu / fv
+        ck.case((name, u, u2, x), nontrivial=(u != u2), accessor="FrequencyAxis", reciprocal=False)
+        if d2.shape != want.shape or numpy.abs(d2 - want).max() > 1e-9 * numpy.abs(want).max():
+            ck.fail("convert:%s" % name, "frequency axis supplied under %s, converted to a time axis and back under %s, is not the exact conversion" % (u, u2),
+                    {"accessor": name, "u": u, "u2": u2, "x": x}, d2.tolist()[:3], want.tolist()[:3])
+        if abs(fs - fs_ref) > 1e-12 * max(1.0, abs(fs_ref)):
+            ck.fail("stored:%s" % name, "the central frequency stored on the time axis depends on the units active at the call",
+                    {"accessor": name, "u": u, "u2": u2, "x": x}, fs, fs_ref)
     # ---- (ii) context programs ------------------------------------------------------------------------
     mol_a = Molecule([0.0, 1.0]); mol_b = Molecule([0.0, 1.2])
     with energy_units("1/cm"):
